@@ -26,6 +26,11 @@ Import ListNotations.
 
 Inductive ckind := CObject | CObservable | CMarking | CExtension.
 
+(* variant of the source (BUILDING.md, "Defects of the unchanged code"): the v21 CustomObject wrapper writes
+   `confidence` as IntegerProperty() (false: the code as found) or IntegerProperty(min=0, max=100) (true: after
+   the C02 fix d647a25).  The harness reads it off a dumped live class. *)
+Record bvar := { b_conf_range : bool }.
+
 Definition ver_text (V : ver) : ustring := match V with V20 => u "2.0" | V21 => u "2.1" end.
 
 Definition mk_slot (n : ustring) (k : pkind) (r : bool) (d : dflt) : slot :=
@@ -44,7 +49,8 @@ Definition s_created (V : ver) : slot := mk_slot (u "created") (time_kind V) fal
 Definition s_modified (V : ver) : slot := mk_slot (u "modified") (time_kind V) false DNow.
 Definition s_revoked : slot := mk_slot (u "revoked") KBool false (DConst (JBool false)).
 Definition s_labels : slot := mk_slot (u "labels") (KList KString) false DNone.
-Definition s_confidence : slot := mk_slot (u "confidence") (KInt None None) false DNone.
+Definition s_confidence (bv : bvar) : slot :=
+  mk_slot (u "confidence") (if b_conf_range bv then KInt (Some 0%Z) (Some 100%Z) else KInt None None) false DNone.
 Definition s_lang : slot := mk_slot (u "lang") KString false DNone.
 Definition s_external_references (V : ver) : slot :=
   mk_slot (u "external_references") (KListOf (ver_text V ++ u "/ExternalReference")) false DNone.
@@ -60,10 +66,10 @@ Definition sdo_pre (V : ver) (n : ustring) : list slot :=
   | V20 => [s_type n; s_id n V20; s_created_by_ref V20; s_created V20; s_modified V20]
   | V21 => [s_type n; s_spec_version; s_id n V21; s_created_by_ref V21; s_created V21; s_modified V21]
   end.
-Definition sdo_post (V : ver) : list slot :=
+Definition sdo_post (bv : bvar) (V : ver) : list slot :=
   match V with
   | V20 => [s_revoked; s_labels; s_external_references V20; s_object_marking_refs V20; s_granular_markings V20]
-  | V21 => [s_revoked; s_labels; s_confidence; s_lang; s_external_references V21; s_object_marking_refs V21;
+  | V21 => [s_revoked; s_labels; s_confidence bv; s_lang; s_external_references V21; s_object_marking_refs V21;
             s_granular_markings V21; s_extensions V21]
   end.
 Definition sco_pre (V : ver) (n : ustring) : list slot :=
@@ -101,8 +107,8 @@ Definition ordered_dict (pairs : list slot) : list slot := slots_update [] pairs
 
 (* ---- the property lists the wrappers assemble ---- *)
 
-Definition object_pairs (V : ver) (n : ustring) (user : list slot) : list slot :=
-  sdo_pre V n ++ filter (fun s => negb (starts_x s)) user ++ sdo_post V ++ sort_by_name (filter starts_x user).
+Definition object_pairs (bv : bvar) (V : ver) (n : ustring) (user : list slot) : list slot :=
+  sdo_pre V n ++ filter (fun s => negb (starts_x s)) user ++ sdo_post bv V ++ sort_by_name (filter starts_x user).
 
 Definition observable_pairs (V : ver) (n : ustring) (user : list slot) : list slot :=
   sco_pre V n ++ user ++ sco_post V.
@@ -128,9 +134,9 @@ Definition extension_slots (xt : option Registry.exttype) (user : list slot) : l
   | Some x => slots_update [s_extension_type x] (ordered_dict user)
   end.
 
-Definition custom_slots (k : ckind) (V : ver) (n : ustring) (xt : option Registry.exttype) (user : list slot) : list slot :=
+Definition custom_slots (bv : bvar) (k : ckind) (V : ver) (n : ustring) (xt : option Registry.exttype) (user : list slot) : list slot :=
   match k with
-  | CObject => ordered_dict (object_pairs V n user)
+  | CObject => ordered_dict (object_pairs bv V n user)
   | CObservable => ordered_dict (observable_pairs V n user)
   | CMarking => ordered_dict user
   | CExtension => extension_slots xt user
@@ -142,10 +148,10 @@ Definition custom_family (k : ckind) : family :=
 (* id of the class in a world: the text harness and model agree on for a custom class *)
 Definition custom_cid (clsname : ustring) : ustring := u "stix2.custom." ++ clsname.
 
-Definition custom_cls (k : ckind) (V : ver) (n : ustring) (xt : option Registry.exttype) (user : list slot)
+Definition custom_cls (bv : bvar) (k : ckind) (V : ver) (n : ustring) (xt : option Registry.exttype) (user : list slot)
            (clsname : ustring) : cls :=
   {| cid := custom_cid clsname; cver := V; ctype := Some n; cfamily := custom_family k;
-     cslots := custom_slots k V n xt user;
+     cslots := custom_slots bv k V n xt user;
      ccons := []; cinit := INone; cidcontrib := []; cserialize_tlp := false |}.
 
 (* ---- adding a class and its registry row to a world ---- *)
